@@ -208,6 +208,11 @@ func (lex *Lexer) Reset() {
 	lex.buffer.Reset()
 }
 
+// inOpenString reports whether the input so far ends inside a "..." string.
+func (lex *Lexer) inOpenString() bool {
+	return lex.state == LexerStrLit || lex.state == LexerStrEscaped
+}
+
 // flushAtEnd delivers the token that only the end of the input terminates.
 // The parser calls it at top level only (no bracket, string or comment
 // open), where the end of the input ends the text exactly as white space
